@@ -69,6 +69,10 @@ MUTANTS = [
     ("C12", "config/tracepoint_config.py", "        self._current_hash = new_hash\n", "        self._current_hash = old_hash\n"),
     ("C12", "config/tracepoint_config.py", "new_config + self._custom)", "self._custom + new_config)"),
     ("C12", "processor/trigger_handler.py", "        self._tp_config = new_config\n", "        self._tp_config = list(self._tp_config) + new_config\n"),
+    ("C12", "poll/poll.py", "if response.response_type == ResponseType.NO_CHANGE:", "if response.response_type != ResponseType.NO_CHANGE:"),
+    ("C12", "poll/poll.py", "update_new_config(response.ts_nanos, response.current_hash,", "update_new_config(request.ts_nanos, request.current_hash,"),
+    ("C12", "poll/poll.py", "current_hash=self.config.tracepoints.current_hash,", "current_hash=None,"),
+    ("C12", "poll/poll.py", "            self.config.tracepoints.update_no_change(response.ts_nanos)\n", "            self.config.tracepoints.update_no_change(response.ts_nanos)\n            return\n        if not response.response:\n            return\n"),
     ("C13", "config/tracepoint_config.py", "        self._custom_ids.append(tp_id)\n        self.__trigger_update(None, None)\n        return tp_id", "        self._custom_ids.insert(0, tp_id)\n        self.__trigger_update(None, None)\n        return tp_id"),
     ("C13", "config/tracepoint_config.py", "                del self._custom[idx]\n", "                del self._custom[0]\n"),
     ("C13", "config/tracepoint_config.py", "                self.__trigger_update(None, None)\n                return", "                return"),
